@@ -98,6 +98,11 @@ def section_accuracy(rep, degree, mutate=None, irregular=False):
                 g0, f0 = integ(w(-Tt)), integ(f(-Tt))
                 rows = [list(g0) + list(f0), list(g1) + list(f1)]
         imu = pd.DataFrame(rows, columns=GYRO_COLS + ACCEL_COLS, index=pd.Index(stamps, dtype=object), dtype=object)
+        if irregular:
+            # an Imu frame is identified by its column NAMES: accelerometers first, a foreign leading
+            # column and permuted axes are the same data
+            imu = imu[[ACCEL_COLS[2], ACCEL_COLS[0], ACCEL_COLS[1]] + [GYRO_COLS[1], GYRO_COLS[2], GYRO_COLS[0]]]
+            imu.insert(0, 'temperature', [J(20 + k) for k in range(len(imu))])
         inc = SD.compute_increments_from_imu(imu, stype)
         theta = inc[THETA_COLS].values[row]
         dv = inc[DV_COLS].values[row]
@@ -195,12 +200,19 @@ def run(run):
                'exact attitude / velocity integral from the Peano-Baker series of C\' = C [w x] in the jet algebra (no Bortz/Savage formula)',
                'the matrix of the computed rotation vector is its exponential series (rotation vector = O(T)); exact real arithmetic',
                'sinusoidal signals at finite sampling intervals (1..160 ms) are outside: their Taylor coefficients are covered through the stated order only')
+    fallback = [{'kind': 'selfcheck', 'cases': [{'seed': 11}, {'seed': 12}]}, {'kind': 'numeric', 'check': 'table', 'point': {}}]
     for degree in (1, 2):
         for irregular in (False, True, 'first'):
-            obls = section_accuracy(rep, degree, irregular=irregular)
+            obls = rep.guarded(PROP, lambda: section_accuracy(rep, degree, irregular=irregular), fallback, 'accuracy, degree %d, irregular=%s' % (degree, irregular))
+            if obls is None:
+                break
             rep.finish(rep.batch(obls), PROP)
-    obls = section_table(rep)
-    rep.finish(rep.batch(obls), PROP)
+        else:
+            continue
+        break
+    obls = rep.guarded(PROP, lambda: section_table(rep), fallback, 'table shape')
+    if obls is not None:
+        rep.finish(rep.batch(obls), PROP)
     run.witness('obligations generated', run.obligations > 100)
     validate(rep)
     for name, deg, spec in CANARIES:
@@ -271,6 +283,11 @@ def _numeric(a, b, c, d, e, g, stype, T, mu=None, first=False):
     else:
         rows = [np.hstack([-W(-T), -Fi(-T)]), np.hstack([W(T), Fi(T)])]
         imu = pd.DataFrame(rows, columns=GYRO_COLS + ACCEL_COLS, index=[0.0, T])
+    if mu is not None:
+        # columns are identified by name: another layout of the same data (accelerometers first,
+        # a foreign leading column) must give the same table
+        imu = imu[ACCEL_COLS[::-1] + GYRO_COLS[::-1]]
+        imu.insert(0, 'temperature', 20.0)
     inc = compute_increments_from_imu(imu, stype)
     sk = lambda v: np.array([[0, -v[2], v[1]], [v[2], 0, -v[0]], [-v[1], v[0], 0]])
     N = 400
@@ -342,6 +359,11 @@ def replay(spec):
             imu = pd.DataFrame(np.arange(24.0).reshape(4, 6) * 0.01, columns=GYRO_COLS + ACCEL_COLS, index=t)
             for st in ('rate', 'increment'):
                 inc = compute_increments_from_imu(imu, st)
+                other = imu[ACCEL_COLS + GYRO_COLS].copy()
+                other.insert(0, 'temperature', 20.0)
+                inc2 = compute_increments_from_imu(other, st)
+                if not np.allclose(inc2.values, inc.values, rtol=0, atol=1e-15):
+                    fails.append('%s: the same Imu data with another column layout (accelerometers first, a foreign leading column) gives another table (max difference %.3g)' % (st, np.abs(inc2.values - inc.values).max()))
                 if len(inc) != 3 or not np.array_equal(inc.index, t[1:]) or not np.allclose(inc['dt'].values, np.diff(t), rtol=0, atol=1e-15):
                     fails.append('%s: rows/stamps/dt are not one per sample after the first (stamps %s: dt column %s)' % (st, t.tolist(), inc['dt'].values.tolist()))
         return {'violated': bool(fails), 'detail': fails}
